@@ -4,6 +4,7 @@ import (
 	"fmt"
 	"go/token"
 	"go/types"
+	"os"
 	"reflect"
 	"regexp"
 	"sort"
@@ -942,6 +943,9 @@ func checkSessionCopy(r *Report, p *Prog) {
 	var groupSites []groupSite
 	for _, tf := range [][2]string{{"AttributeValue", "Value"}, {"NameID", "Value"}} {
 		for _, c := range rg.all {
+			if os.Getenv("SAMLVERIF_DEBUG") != "" {
+				fmt.Printf("DEBUG c07 activation %s depth %d stores %d\n", p.FnName(c.fn), c.depth, len(litFields(c.fn, modPath, tf[0])[tf[1]]))
+			}
 			r.Fn(p.FnName(c.fn))
 			for _, st := range litFields(c.fn, modPath, tf[0])[tf[1]] {
 				n++
